@@ -25,6 +25,7 @@ type GenVal struct {
 	WKey    KeyNum // 0 => ETH1 credentials
 	Addr    common.Eth1Address
 	Balance common.Gwei
+	Prefix  byte // with WKey: first credentials byte when it is neither 0x00 nor 0x01 (the rest stays the hash of the withdrawal key)
 }
 
 func (g *GenVal) Credentials() (out common.Root) {
@@ -37,7 +38,18 @@ func (g *GenVal) Credentials() (out common.Root) {
 	h := sha256.Sum256(wp[:])
 	out = h
 	out[0] = common.BLS_WITHDRAWAL_PREFIX
+	if g.Prefix > 1 {
+		out[0] = g.Prefix
+	}
 	return
+}
+
+// valInfoOf: validators with odd credentials have no usable withdrawal key for the honest producer.
+func valInfoOf(g GenVal) ValInfo {
+	if g.Prefix > 1 {
+		return ValInfo{Key: g.Key, Odd: g.Prefix}
+	}
+	return ValInfo{Key: g.Key, WKey: g.WKey, Addr: g.Addr}
 }
 
 type GenesisPlan struct {
@@ -104,6 +116,15 @@ func MakeGenesisPlan(r *hx.Rng, sp *common.Spec, k GenesisKnobs) *GenesisPlan {
 		}
 		if v.Balance >= sp.MAX_EFFECTIVE_BALANCE {
 			nFull++
+		}
+		// two validators whose credentials start with 0x02 / 0xff and continue with the hash of their withdrawal key
+		if n >= 8 && (i == n/3 || i == 2*n/3) {
+			v.Addr = common.Eth1Address{}
+			v.WKey = WithdrawalKeyBase + KeyNum(i+1)
+			v.Prefix = 0x02
+			if i == 2*n/3 {
+				v.Prefix = 0xff
+			}
 		}
 		p.Vals = append(p.Vals, v)
 	}
@@ -187,7 +208,7 @@ func (c *Chain) Genesis(p *GenesisPlan) error {
 	sp := c.Spec
 	c.Vals = nil
 	for _, v := range p.Vals {
-		c.Vals = append(c.Vals, ValInfo{Key: v.Key, WKey: v.WKey, Addr: v.Addr})
+		c.Vals = append(c.Vals, valInfoOf(v))
 		c.BLS.UseKey(v.Key)
 		if v.WKey != 0 {
 			c.BLS.UseKey(v.WKey)
